@@ -680,7 +680,122 @@ def h13(params, zero):
     return factory
 
 
-HARNESS = {"H12": h12, "H13": h13, "H11": h11, "H10": h10, "H1": h1, "H2": h2, "H3": h3, "H4": h4, "H5": h5, "H6": h6, "H7": h7, "H8": h8, "H9": h9}
+H14_ORDERS = [["1", "2", "3", "4"], ["3", "1", "4", "2"], ["4", "3", "2", "1"], ["2", "4", "1", "3"]]
+
+
+def h14(params, zero):
+    """the public batch methods called DIRECTLY with explicit arguments (no expression, no tree): RcEvaluator.evaluate_conditions
+    with its optional condition_keys_with_context (a sub-set of the keys has its OWN EvaluationContext with its own scope, the
+    others run in the default context), FcEvaluator.evaluate_format_constraints and HintsProvider.get_hints with the keys handed
+    over in a caller-chosen order.  Every method reports the scope it was handed; methods of odd keys are coroutines that
+    suspend, even ones are plain."""
+    from ahbicht.content_evaluation.evaluationdatatypes import EvaluatableData, EvaluatableDataProvider, EvaluationContext
+    from ahbicht.content_evaluation.fc_evaluators import FcEvaluator
+    from ahbicht.content_evaluation.rc_evaluators import RcEvaluator
+    from ahbicht.expressions.hints_provider import HintsProvider
+    import inject
+
+    what = params["what"]
+    order = H14_ORDERS[params["order"]]
+    ctx_mask = params.get("ctx") or 0  # bit i set: i-th key OF THE ORDER gets its own context
+    vals = list(PERMS[params["perm"] % 6]) + [PERMS[(params["perm"] + 1) % 6][0]]  # 4 states, not all equal
+
+    def factory(sched):
+        async def point(what_):
+            if not zero:
+                await sched.point(what_)
+
+        seen = {}
+
+        def rc_method(key, is_async, val):
+            if is_async:
+                async def evaluate(self, evaluatable_data, context):
+                    seen[key] = context.scope if context is not None else "NO-CONTEXT"
+                    await point(f"rc:{key}")
+                    seen[key] = [seen[key], context.scope if context is not None else "NO-CONTEXT"]
+                    return _I.STATE[val]
+            else:
+                def evaluate(self, evaluatable_data, context):
+                    seen[key] = [context.scope if context is not None else "NO-CONTEXT"] * 2
+                    return _I.STATE[val]
+            return evaluate
+
+        def fc_method(key, is_async, ok):
+            if is_async:
+                async def evaluate(self, entered_input):
+                    await point(f"fc:{key}")
+                    return _I.EvaluatedFormatConstraint(format_constraint_fulfilled=ok, error_message=None if ok else f"msg {key}")
+            else:
+                def evaluate(self, entered_input):
+                    return _I.EvaluatedFormatConstraint(format_constraint_fulfilled=ok, error_message=None if ok else f"msg {key}")
+            return evaluate
+
+        data = EvaluatableData(body=None, edifact_format=_I.FMT, edifact_format_version=_I.FMTV)
+
+        async def main():
+            def configure(binder):
+                binder.bind_to_provider(EvaluatableDataProvider, lambda: data)
+
+            inject.clear_and_configure(configure)
+            try:
+                if what == "rc":
+                    ns = {f"evaluate_{k}": rc_method(k, int(k) % 2 == 1, v) for k, v in zip(("1", "2", "3", "4"), vals)}
+                    ns.update(edifact_format=_I.FMT, edifact_format_version=_I.FMTV,
+                              _get_default_context=lambda self: EvaluationContext(scope="DEFAULT"))
+                    ev = type("UserRc14", (RcEvaluator,), ns)()
+                    with_ctx = {k: EvaluationContext(scope=f"scope-of-{k}") for i, k in enumerate(order) if ctx_mask >> i & 1}
+                    got = await ev.evaluate_conditions(list(order), data, with_ctx if params.get("ctx") is not None else None)
+                    return [sorted([k, str(v.name if hasattr(v, "name") else v)] for k, v in got.items()), sorted(seen.items())]
+                if what == "fc":
+                    ns = {f"evaluate_{900 + int(k)}": fc_method(str(900 + int(k)), int(k) % 2 == 1, v == "F")
+                          for k, v in zip(("1", "2", "3", "4"), vals)}
+                    ns.update(edifact_format=_I.FMT, edifact_format_version=_I.FMTV)
+                    ev = type("UserFc14", (FcEvaluator,), ns)()
+                    from ahbicht.content_evaluation.fc_evaluators import text_to_be_evaluated_by_format_constraint
+                    text_to_be_evaluated_by_format_constraint.set("eingabe")
+                    got = await ev.evaluate_format_constraints([str(900 + int(k)) for k in order])
+                    return [sorted([k, v.format_constraint_fulfilled, v.error_message] for k, v in got.items())]
+                texts = {str(500 + int(k)): f"Hinweis {k} {v}" for k, v in zip(("1", "2", "3", "4"), vals)}
+
+                class UserHints14(HintsProvider):
+                    edifact_format, edifact_format_version = _I.FMT, _I.FMTV
+
+                    async def get_hint_text(self, condition_key):
+                        if int(condition_key) % 2 == 1:
+                            await point(f"hint:{condition_key}")
+                        return texts[condition_key]
+
+                got = await UserHints14().get_hints([str(500 + int(k)) for k in order])
+                return [sorted([k, v.condition_key, v.hint] for k, v in got.items())]
+            finally:
+                _I._configured = False
+                _I.setup()
+
+        return main()
+
+    return factory
+
+
+def _h14_want(params):
+    """absolute expectation, written down from the statement: every key paired with the value produced for it; a key with its
+    own context is evaluated in exactly that context, every other key in the default context"""
+    order = H14_ORDERS[params["order"]]
+    vals = list(PERMS[params["perm"] % 6]) + [PERMS[(params["perm"] + 1) % 6][0]]
+    by_key = dict(zip(("1", "2", "3", "4"), vals))
+    if params["what"] == "rc":
+        names = {"F": "FULFILLED", "U": "UNFULFILLED", "?": "UNKNOWN"}
+        mask = params.get("ctx")
+        seen = []
+        for i, k in enumerate(order):
+            sc = f"scope-of-{k}" if mask is not None and mask >> i & 1 else "DEFAULT"
+            seen.append([k, [sc, sc]])
+        return [sorted([k, names[v]] for k, v in by_key.items()), sorted(seen)]
+    if params["what"] == "fc":
+        return [sorted([str(900 + int(k)), v == "F", None if v == "F" else f"msg {900 + int(k)}"] for k, v in by_key.items())]
+    return [sorted([str(500 + int(k)), str(500 + int(k)), f"Hinweis {k} {v}"] for k, v in by_key.items())]
+
+
+HARNESS = {"H14": h14, "H12": h12, "H13": h13, "H11": h11, "H10": h10, "H1": h1, "H2": h2, "H3": h3, "H4": h4, "H5": h5, "H6": h6, "H7": h7, "H8": h8, "H9": h9}
 
 
 def plan(tier, seed):
@@ -690,6 +805,12 @@ def plan(tier, seed):
     def add(name, params, order_bound=None):
         items.append({"h": name, "params": params, "order_bound": order_bound, "early": b["early"]})
 
+    for o in range(len(H14_ORDERS)):
+        for ctx in (None, 0, 5, 10, 15, 6):
+            add("H14", {"what": "rc", "order": o, "perm": (o + (ctx or 0)) % 6, "ctx": ctx})
+        add("H14", {"what": "fc", "order": o, "perm": o})
+        add("H14", {"what": "fc", "order": o, "perm": o + 3})
+        add("H14", {"what": "hints", "order": o, "perm": o + 1})
     for perm in range(6):
         for e in range(4):
             add("H1", {"perm": perm, "expr": e}, order_bound=None if e < 3 else b["large_order_bound"] + 1)
@@ -816,6 +937,9 @@ def _absolute_violations(item, base):
     from mc.ref import condparse as R2
 
     got = json.loads(base)
+    if item["h"] == "H14":
+        want = json.loads(json.dumps(_h14_want(item["params"])))
+        return [] if got == want else [("key-paired-with-wrong-value", want, got)]
     if item["h"] == "H11" and item["params"]["what"] == "rc":
         from mc.ref import reqeval as R3
 
